@@ -53,3 +53,9 @@ double fracrevbits(uint32_t i) {
 uint64_t ceilto64b(uint64_t size) { return (size + UINT64_C(63)) & (UINT64_C(-64)); }
 
 uint64_t ceilto32b(uint64_t size) { return (size + UINT64_C(31)) & (UINT64_C(-32)); }
+
+#ifdef SPQLIOS_VERIF
+static int spqlios_verif_allow_accelerated = 1;
+EXPORT int spqlios_verif_cpu_allows(const char* feature) { return spqlios_verif_allow_accelerated; }
+EXPORT void spqlios_verif_set_cpu_mask(int allow_accelerated) { spqlios_verif_allow_accelerated = allow_accelerated; }
+#endif
